@@ -1,56 +1,94 @@
 #!/venv/bin/python
 """
 refresh_patches.py [patch ...]   (default: every mutant / benign / seeded patch)
-Re-bases patches that no longer apply exactly to /repo's HEAD but still apply
-with fuzz (context moved by a repair): applies them with `patch -F3` in a
-scratch export and rewrites the patch file as an exact diff.  Patches that do
-not apply even with fuzz are reported (they have to be ported by hand).
-/repo is never modified.
+Re-bases patches that no longer apply exactly to /repo's HEAD (context moved by
+a repair): looks for the newest commit of /repo to which the patch applies
+exactly, and 3-way merges (git merge-file) every touched file from there to
+HEAD.  The result must compile and the rewritten patch must apply exactly;
+conflicts are reported (port by hand).  /repo is never modified.
 """
 import glob, os, shutil, subprocess, sys
 VERIF = os.path.dirname(os.path.dirname(os.path.abspath(__file__)))
+TMP = f"/dev/shm/refresh-{os.getpid()}"
 
 
-def export(d):
+def sh(cmd, cwd=None, check=False):
+    return subprocess.run(cmd, shell=True, cwd=cwd, capture_output=True, text=True, check=check)
+
+
+def export(rev, d):
     shutil.rmtree(d, ignore_errors=True)
     os.makedirs(d)
-    subprocess.run("cd /repo && git archive HEAD evo test | tar -x -C " + d, shell=True, check=True)
+    sh(f"git -C /repo archive {rev} evo test | tar -x -C {d}", check=True)
+
+
+def applies(p, d):
+    return sh(f"git apply --check --whitespace=nowarn {p}", cwd=d).returncode == 0
 
 
 def main():
     patches = sys.argv[1:] or sorted(
         glob.glob(VERIF + "/selftest/mutants/*/*.patch") + glob.glob(VERIF + "/selftest/benign/*/*.patch") +
         glob.glob(VERIF + "/seeded/*/patch.diff"))
-    a, b = f"/dev/shm/refresh-{os.getpid()}/a", f"/dev/shm/refresh-{os.getpid()}/b"
-    failed = 0
+    revs = sh("git -C /repo log --format=%H -n 40").stdout.split()
+    head, failed = f"{TMP}/head", 0
+    export("HEAD", head)
     for p in patches:
-        export(a)
-        if subprocess.run(["git", "apply", "--check", "--whitespace=nowarn", p], cwd=a, capture_output=True).returncode == 0:
+        p = os.path.abspath(p)
+        if applies(p, head):
             continue
-        export(b)
-        r = subprocess.run(f"patch -p1 -F3 --no-backup-if-mismatch < {p}", shell=True, cwd=b, capture_output=True, text=True)
-        if r.returncode != 0:
-            print("FAIL (port by hand):", os.path.relpath(p, VERIF))
+        name = os.path.relpath(p, VERIF)
+        base_rev = None
+        for rev in revs[1:]:
+            export(rev, f"{TMP}/base")
+            if applies(p, f"{TMP}/base"):
+                base_rev = rev
+                break
+        if base_rev is None:
+            print("FAIL (applies to no recent commit, port by hand):", name)
             failed += 1
             continue
-        for junk in glob.glob(b + "/**/*.orig", recursive=True) + glob.glob(b + "/**/*.rej", recursive=True):
-            os.remove(junk)
-        # fuzz may have put a hunk into the wrong place: every touched file must still compile
-        touched = [l[6:].split("\t")[0] for l in open(p) if l.startswith("+++ b/")]
-        broken = [f for f in touched if f.endswith(".py") and subprocess.run(
-            ["/venv/bin/python", "-m", "py_compile", os.path.join(b, f)], capture_output=True).returncode != 0]
-        if broken:
-            print("FAIL (fuzz misplaced a hunk, port by hand):", os.path.relpath(p, VERIF), broken)
+        export(base_rev, f"{TMP}/theirs")
+        sh(f"git apply --whitespace=nowarn {p}", cwd=f"{TMP}/theirs", check=True)
+        touched = [l[6:].split("\t")[0].strip() for l in open(p) if l.startswith("+++ b/")]
+        export("HEAD", f"{TMP}/a")
+        export("HEAD", f"{TMP}/b")
+        ok = True
+        for f in touched:
+            cur, base, theirs = f"{TMP}/b/{f}", f"{TMP}/base/{f}", f"{TMP}/theirs/{f}"
+            if not os.path.exists(base) or not os.path.exists(cur):
+                shutil.copy(theirs, cur)
+                continue
+            r = sh(f"git merge-file -q {cur} {base} {theirs}")
+            if r.returncode != 0:
+                ok = False
+                break
+            if f.endswith(".py") and sh(f"/venv/bin/python -m py_compile {cur}").returncode != 0:
+                ok = False
+                break
+        how = "3-way from " + base_rev[:7]
+        if not ok:
+            # second try: the patch applied to HEAD with fuzz (hunks whose
+            # context moved only a little); every touched file must compile
+            export("HEAD", f"{TMP}/b")
+            r = sh(f"patch -p1 -F3 --no-backup-if-mismatch < {p}", cwd=f"{TMP}/b")
+            for junk in glob.glob(f"{TMP}/b/**/*.orig", recursive=True) + glob.glob(f"{TMP}/b/**/*.rej", recursive=True):
+                os.remove(junk)
+            ok = r.returncode == 0 and all(
+                sh(f"/venv/bin/python -m py_compile {TMP}/b/{f}").returncode == 0
+                for f in touched if f.endswith(".py"))
+            how = "fuzz"
+        if not ok:
+            print("FAIL (3-way merge conflict and no fuzzy match, port by hand):", name)
             failed += 1
             continue
-        d = subprocess.run(["diff", "-ruN", "a", "b"], cwd=os.path.dirname(a), capture_output=True, text=True).stdout
-        d = "\n".join(l for l in d.split("\n") if not l.startswith("diff -ruN")) 
+        d = sh("diff -ruN a b", cwd=TMP).stdout
+        d = "\n".join(l for l in d.split("\n") if not l.startswith("diff -ruN"))
         open(p, "w").write(d if d.endswith("\n") else d + "\n")
-        export(a)
-        ok = subprocess.run(["git", "apply", "--check", "--whitespace=nowarn", p], cwd=a, capture_output=True).returncode == 0
-        print("refreshed" if ok else "REFRESH FAILED", os.path.relpath(p, VERIF))
-        failed += 0 if ok else 1
-    shutil.rmtree(os.path.dirname(a), ignore_errors=True)
+        good = applies(p, head)
+        print(("refreshed (%s) " % how) if good else "REFRESH FAILED ", name)
+        failed += 0 if good else 1
+    shutil.rmtree(TMP, ignore_errors=True)
     return 1 if failed else 0
 
 
